@@ -66,7 +66,7 @@ pub fn quote_delimiter<'a>() -> impl Parser<&'a str, &'a str, winnow::error::Con
     alt((
         delimited("\"", take_until(1.., "\""), "\""),
         delimited("'", take_until(1.., "'"), "'"),
-        take_while(1.., |c| c != ' ' && c != '\n' && c != ')'),
+        take_while(1.., |c| !matches!(c, ' ' | '\t' | '\r' | '\n' | ')')),
     ))
 }
 
